@@ -113,7 +113,12 @@ TEntry ==
            vis  == [r EXCEPT !.calls = Visible(r.calls)]
            \* the snapshot value a blocking recorder puts into its error: the entry number - except a slot that hands out
            \* one constant, pre-built result object (bm = "const"), which always says -3
-           bval == IF r.blk > 0 /\ chain.rule[PosIn(chain.rule, r.blk)].bm = "const" THEN 0 - 3 ELSE id
+           bmode == IF r.blk > 0 THEN chain.rule[PosIn(chain.rule, r.blk)].bm ELSE ""
+           \* a slot that blocks through the partial helper ResetToBlocked(type) (bm = "partial") names neither a rule nor
+           \* a snapshot: the caller's error must carry none - in particular not those of an earlier block that used the
+           \* same pooled context
+           bval  == IF bmode = "const" THEN 0 - 3 ELSE IF bmode = "partial" THEN 0 - 1 ELSE id
+           brule == IF bmode = "partial" THEN 0 - 1 ELSE r.blk
            \* C16: call log; outcome; nothing escapes; block error = first blocking slot's, for this entry
            logOK == /\ Len(Ev.calls) >= Len(vis.calls)
                     /\ \A i \in DOMAIN vis.calls : Proj(Ev.calls[i]) = vis.calls[i]
@@ -121,13 +126,13 @@ TEntry ==
                     /\ WellFormed(Ev.calls, chain, so)
                     \* the error the statistic slots are told is the first blocking slot's, and the caller gets the same
                     /\ \A i \in DOMAIN Ev.calls : Ev.calls[i].m = "blocked" =>
-                            /\ g.mode # "global" => (Ev.calls[i].bt = r.blk /\ Ev.calls[i].rule = r.blk /\ Ev.calls[i].val = bval)
+                            /\ g.mode # "global" => (Ev.calls[i].bt = r.blk /\ Ev.calls[i].rule = brule /\ Ev.calls[i].val = bval)
                             /\ Has(Ev, "berr") => (Ev.calls[i].bt = Ev.berr.bt /\ Ev.calls[i].rule = Ev.berr.rule /\ Ev.calls[i].val = Ev.berr.val)
            resOK == /\ ~Ev.esc
                     /\ Ev.blocked <=> (r.out = "block")
                     /\ Ev.admitted <=> (r.out # "block")
                     /\ Ev.blocked => Has(Ev, "berr")
-                    /\ (Ev.blocked /\ g.mode # "global") => (Ev.berr.bt = r.blk /\ Ev.berr.rule = r.blk /\ Ev.berr.val = bval)
+                    /\ (Ev.blocked /\ g.mode # "global") => (Ev.berr.bt = r.blk /\ Ev.berr.rule = brule /\ Ev.berr.val = bval)
            be2  == IF Ev.blocked /\ Has(Ev, "berr")
                      THEN berr @@ (id :> [bt |-> Ev.berr.bt, rule |-> Ev.berr.rule, val |-> Ev.berr.val]) ELSE berr
            \* C01: accounting.  blocked: b blocked tokens; passed: b passed tokens and the gauge; admitted through a
